@@ -281,15 +281,51 @@ fn run_trial(ctx: &Ctx, env: &Env, cs: u64) {
                     let mut buf = vec![0u8; *rng.pick(&[1usize, 100, 4096, 65536])];
                     let mut total = 0usize;
                     let mut err = None;
-                    loop {
-                        match lib(|| rq.as_reader().read(&mut buf)) {
-                            Ok(0) => break,
-                            Ok(m) => total += m,
-                            Err(e) => {
-                                err = Some(e.to_string());
-                                break;
+                    // the ways an application reads a body to its end
+                    let how = rng.below(5);
+                    rep.inc(&format!("B_read_method:{}", ["read-loop", "read_to_end", "read_to_string", "io::copy", "read_vectored-loop"][how]));
+                    match how {
+                        1 => {
+                            let mut v = Vec::new();
+                            match lib(|| rq.as_reader().read_to_end(&mut v)) {
+                                Ok(m) => total = m,
+                                Err(e) => err = Some(e.to_string()),
                             }
                         }
+                        2 => {
+                            let mut v = String::new();
+                            match lib(|| rq.as_reader().read_to_string(&mut v)) {
+                                Ok(m) => total = m,
+                                Err(e) => err = Some(e.to_string()),
+                            }
+                        }
+                        3 => match lib(|| std::io::copy(rq.as_reader(), &mut std::io::sink())) {
+                            Ok(m) => total = m as usize,
+                            Err(e) => err = Some(e.to_string()),
+                        },
+                        4 => loop {
+                            let cut = buf.len() / 2;
+                            let (x, y) = buf.split_at_mut(cut);
+                            let mut io = [std::io::IoSliceMut::new(x), std::io::IoSliceMut::new(y)];
+                            match lib(|| rq.as_reader().read_vectored(&mut io)) {
+                                Ok(0) => break,
+                                Ok(m) => total += m,
+                                Err(e) => {
+                                    err = Some(e.to_string());
+                                    break;
+                                }
+                            }
+                        },
+                        _ => loop {
+                            match lib(|| rq.as_reader().read(&mut buf)) {
+                                Ok(0) => break,
+                                Ok(m) => total += m,
+                                Err(e) => {
+                                    err = Some(e.to_string());
+                                    break;
+                                }
+                            }
+                        },
                     }
                     if let Some(e) = err {
                         inconclusive = Some(format!("B: body read error {}", e));
